@@ -154,11 +154,13 @@ Definition enc_obs (o : nat * Z * list (option Z)) : list Z :=
   Z.of_nat (fst (fst o)) :: snd (fst o) :: Z.of_nat (List.length (snd o)) :: map enc_out (snd o).
 
 Definition dec_event (e : Z * Z) : event unit Z :=
-  if (fst e <? 0)%Z then ESub 0 else ERun (Z.to_nat (fst e)) (snd e).
+  if (fst e <? -99)%Z then EApply tt                                  (* apply the operator value to a new source *)
+  else if (fst e <? 0)%Z then ESub (Z.to_nat (-1 - fst e))            (* -1 - k: subscribe to application k *)
+  else ERun (Z.to_nat (fst e)) (snd e).                               (* j: subscription j receives snd e *)
 
 Definition run_prog (c : Z * Z * list (Z * Z)) : list Z :=
   let '(which, count, h) := c in
-  let evs := EApply tt :: map dec_event h in
+  let evs := map dec_event h in
   let t := if (which =? 0)%Z then trace_shared _ _ _ _ _ _ (prog_take count) evs
            else trace_shared _ _ _ _ _ _ (prog_skip count) evs in
   List.concat (map enc_obs t).
